@@ -2,6 +2,7 @@ package symx
 
 import (
 	"go/token"
+	"go/types"
 	"syscall"
 
 	"golang.org/x/tools/go/ssa"
@@ -36,5 +37,44 @@ func init() {
 			*fr.i.globalCell(g) = v
 		}
 		return nil
+	}
+}
+
+// The file system is environment: nothing exists (the shipped defaults are what the code falls
+// back to).  Files that matter to a property are precomputed into tables by the harness (3.4).
+func pathError(fr *frame, op string, path value) iface {
+	fs := fr.i.prog.ImportedPackage("io/fs")
+	sc := fr.i.prog.ImportedPackage("syscall")
+	if fs == nil || sc == nil {
+		return iface{fr.i.runtimeErrorString, "file does not exist"}
+	}
+	errno := iface{sc.Type("Errno").Object().Type(), uintptr(2)} // ENOENT
+	var cell value = structure{op, path, errno}
+	return iface{types.NewPointer(fs.Type("PathError").Object().Type()), &cell}
+}
+
+func init() {
+	ex := externals
+	ex["os.ReadFile"] = func(fr *frame, a []value) value { return tuple{[]value(nil), pathError(fr, "open", a[0])} }
+	ex["os.Open"] = func(fr *frame, a []value) value { return tuple{(*value)(nil), pathError(fr, "open", a[0])} }
+	ex["os.OpenFile"] = func(fr *frame, a []value) value { return tuple{(*value)(nil), pathError(fr, "open", a[0])} }
+	ex["os.Stat"] = func(fr *frame, a []value) value { return tuple{iface{}, pathError(fr, "stat", a[0])} }
+	ex["os.Lstat"] = ex["os.Stat"]
+	ex["os.ReadDir"] = func(fr *frame, a []value) value { return tuple{[]value(nil), pathError(fr, "open", a[0])} }
+	ex["os.MkdirAll"] = func(fr *frame, a []value) value { return pathError(fr, "mkdir", a[0]) }
+	ex["os.Getwd"] = func(fr *frame, a []value) value { return tuple{"/", iface{}} }
+	ex["os.Executable"] = func(fr *frame, a []value) value { return tuple{"/olla", iface{}} }
+	ex["os.IsNotExist"] = func(fr *frame, a []value) value { return a[0].(iface).t != nil }
+	ex["os.LookupEnv"] = func(fr *frame, a []value) value { return tuple{"", false} }
+	ex["os.Getenv"] = func(fr *frame, a []value) value { return "" }
+}
+
+func init() {
+	// A time-seeded private RNG (rand.New(rand.NewSource(time.Now().UnixNano()))) would push the
+	// symbolic clock through the seeding LCG: the seed is replaced by a constant, i.e. private RNGs
+	// are deterministic in the model.  The package-level rand.Float64/Intn stay symbolic.
+	externals["math/rand.seedrand"] = func(fr *frame, a []value) value {
+		E.Stubs["math/rand private source seeded with a constant"]++
+		return int32(1)
 	}
 }
